@@ -801,6 +801,52 @@ pub fn run(tier: &str, _seed: u64, outdir: &str) {
                 .map(|p| vw::verify_legacy(&p, &req2, &ctx) == "accept").unwrap_or(false);
             a(&format!("create_presentation:two-credentials-{}", oname), same_shape && verifies, &mut out);
         }
+        // a credential entry that no record refers to, at the front / in the middle / at the end of the entries: every
+        // record stays with the entry it names
+        let c6 = mk(anoncreds_credential_from_json, serde_json::to_value(&w.creds[6].legacy).unwrap());
+        for (oname, unused_at) in [("unused-entry-first", 0usize), ("unused-entry-middle", 1), ("unused-entry-last", 2)] {
+            let used: Vec<usize> = (0..3).filter(|i| *i != unused_at).collect();
+            let native = {
+                let mut pc: anoncreds::types::PresentCredentials<anoncreds::types::Credential> = anoncreds::types::PresentCredentials::default();
+                for i in 0..3 {
+                    if i == unused_at {
+                        pc.add_credential(&w.creds[6].legacy, None, None);
+                    } else if i == used[0] {
+                        let mut a0 = pc.add_credential(&w.creds[0].legacy, None, None);
+                        a0.add_requested_attribute("a_name", true);
+                        a0.add_requested_predicate("p_age");
+                    } else {
+                        let mut a1 = pc.add_credential(&w.creds[2].legacy, None, None);
+                        a1.add_requested_attribute("a_zip", true);
+                        a1.add_requested_predicate("p_sal");
+                    }
+                }
+                anoncreds::prover::create_presentation(&req2, pc, None, &w.holders[0], &w.schemas(), &w.cred_defs()).ok().map(|p| serde_json::to_value(&p).unwrap())
+            };
+            let mut entries = vec![];
+            for i in 0..3 {
+                let h = if i == unused_at { c6 } else if i == used[0] { l.cred0 } else { c2 };
+                entries.push(FfiCredentialEntry { credential: h, timestamp: -1, rev_state: 0 });
+            }
+            let (e0, e1) = (used[0] as i64, used[1] as i64);
+            let prove = vec![rec(e1, &r_sal, true), rec(e0, &r_name, false), rec(e1, &r_zip, false), rec(e0, &r_age, true)];
+            let mut ph = 0usize;
+            let rc = unsafe {
+                anoncreds_create_presentation(rh, FfiList::of(&entries), FfiList::of(&prove), FfiList::empty(), FfiList::empty(), ls.as_ptr(),
+                    FfiList::of(&[l.schema, s2]), FfiList::of(&[sid0.as_ptr(), sid2.as_ptr()]), FfiList::of(&[l.cred_def0, cd2]), FfiList::of(&[cid0c.as_ptr(), cid2.as_ptr()]), &mut ph)
+            };
+            let got = if rc == 0 { get_json(ph) } else { None };
+            let same_shape = match (&got, &native) {
+                (Some(g), Some(n)) => g["requested_proof"] == n["requested_proof"] && g["identifiers"] == n["identifiers"],
+                (None, None) => true,
+                _ => false,
+            };
+            let verifies = match got {
+                Some(g) => serde_json::from_value::<anoncreds::data_types::presentation::Presentation>(g).ok().map(|p| vw::verify_legacy(&p, &req2, &ctx) == "accept").unwrap_or(false),
+                None => native.is_none(),
+            };
+            a(&format!("create_presentation:{}", oname), same_shape && verifies, &mut out);
+        }
     }
     // verification with interval overrides: every entry of the list reaches the verifier, grouped by registry
     {
